@@ -72,7 +72,7 @@ def run_ledger(prop, profiles, tier, seed, rule_extra="", verdict=None):
             n0 = len(trans)
             if logged:
                 for t in r.tlines:
-                    if t["s"].get("pairAdded") or (isinstance(t["sc"], dict) and t["sc"].get("pairAdded")):
+                    if any(t["s"].get(f) or (isinstance(t["sc"], dict) and t["sc"].get(f)) for f in ("pairAdded", "marketAdded")):
                         continue     # a pre-state with the oracle pair already added is not materialised (block replay covers it)
                     trans.setdefault((vf.canon(t["s"]), vf.canon(t["sc"]), vf.canon(t["a"])), t)
             cfgs.append({"cfg": cfg, "mode": "simulate" if "simulate" in kw else "exhaustive", "distinct": r.distinct,
